@@ -65,6 +65,7 @@ NEG = [
     ("Geo", "MC_Geo_neg_cos", "RoundTripLL"),
     ("Geo", "MC_Geo_neg_axes", None),
     ("Geo", "MC_Geo_neg_fill", None),
+    ("NetcdfFiles", "MC_NetcdfFiles_neg_memo", "LoadReturnsLastSaved"),
 ]
 
 
